@@ -102,7 +102,9 @@ def gen_cases(tier, seed):
         gi, forms = gen_gitignore(r, spec)
         if any(e["p"] == "src/.gitignore" for e in spec):
             continue
-        yield {"spec": spec, "gitignore": gi, "forms": forms, "driver": driver, "use": r.random() < 0.85, "fs": "ext4"}
+        yield {"spec": spec, "gitignore": gi, "forms": forms, "driver": driver, "use": r.random() < 0.85, "fs": "ext4",
+               "extra": r.choice([[], [], [], ["--fsync"], ["--no-perms"], ["--no-progress"], ["--reflink", "never"], ["--backup", "auto"]]),
+               "srcarg": r.choice(["src", "src", "src/", "./src", "@ROOT@/src"])}
 
 
 def git_ignored(sb, srcdir, relpaths):
@@ -141,7 +143,8 @@ def run_case(case):
             if any("/".join(parts[:k]) in ignored for k in range(1, len(parts) + 1)):
                 continue
             expected.add(p)
-        args = ["--driver", case["driver"], "-w", "2", "-r"] + (["--gitignore"] if case["use"] else []) + ["src", "dst"]
+        args = ["--driver", case["driver"], "-w", "2", "-r"] + (["--gitignore"] if case["use"] else []) + case.get("extra", []) + [case.get("srcarg", "src"), "dst"]
+        args = [a.replace("@ROOT@", root) for a in args]
         run = core.run_plain(core.xcp_argv(args), root)
         if run.verdict != "exited":
             res["inconc"].append("run-" + run.verdict)
